@@ -205,6 +205,7 @@ def main(tier, base_seed):
     results = []
     cov = {"per_flavour": {}}
     agg_all, sched_all, tasks_all, entries_all = {}, set(), set(), {}
+    gate_failures = []
     total_runs = 0
     vt = 0
     tree = None
@@ -226,8 +227,9 @@ def main(tier, base_seed):
         g.run()
         mism = [i for i, h in g.run_hash.items() if main_b.run_hash.get(i) != h]
         if mism:
-            raise common.HarnessFault("C20 %s determinism gate: trace hashes differ for runs %s" % (flavour, mism[:8]))
-        if main_b.harness:
+            # never a verdict by itself (see run19): candidates must pass their own reproduction gates
+            gate_failures.append("C20 %s determinism gate: trace hashes differ for runs %s" % (flavour, mism[:8]))
+        if main_b.harness and not main_b.viol:
             raise common.HarnessFault("C20 %s worker problem: %r" % (flavour, main_b.harness[0],))
         log("[C20] %s: %d runs in %.0fs, %d dispatched, %d distinct schedules, %d task types; gate: %d runs re-executed (3 workers, other PYTHONHASHSEED), hashes equal; %d candidate violations"
             % (flavour, nruns, time.time() - tf, main_b.agg.get("runs_dispatched", 0), len(main_b.sched), len(main_b.tasks), len(g.run_hash), len(main_b.viol)))
@@ -238,7 +240,11 @@ def main(tier, base_seed):
         for sig, v in list(by_sig.items())[:6]:
             if sig in done_sigs:
                 continue
-            r = handle(exe, env, flavour, base_seed, v)
+            try:
+                r = handle(exe, env, flavour, base_seed, v)
+            except common.HarnessFault as e:
+                gate_failures.append(str(e))
+                continue
             k = common.match_known(PROP, r["signature"])
             if k:
                 r["known"], r["what"] = True, k["what"]
@@ -303,6 +309,9 @@ def main(tier, base_seed):
         "seeded sampling, not enumeration: a clean batch is evidence, not proof",
     ]
     unknown = [r for r in results if not r.get("known")]
+    if gate_failures and not unknown:
+        raise common.HarnessFault("; ".join(gate_failures[:3]))
+    coverage["reproduction_gate_failures"] = gate_failures[:5]
     common.write_evidence(PROP, tier, base_seed, coverage, assumptions, wall, len(unknown),
                           extra={"known_findings_reported": [r["signature"] for r in results if r.get("known")]})
     log("[C20] %d runs, %d distinct schedules, %d/%d task types, %.0fs" % (total_runs, len(sched_all), len(tasks_all), vt, wall))
